@@ -257,6 +257,26 @@ Theorem C03_proxy_next_is_session_next :
 Proof. exact session_next_is_pc_next. Qed.
 Print Assumptions C03_proxy_next_is_session_next.
 
+(* ---- the receiver hosts a Proxy ---------------------------------------------------------------------
+   receive(s, nil, n) on a client Session with an active Proxy (recv_host; prox = its proxied clients):
+   direct_h prox i p = the host's own handlers for a packet of the host, the QUEUE of the proxied
+   client p names otherwise.  Delivered, over the whole drain: every queued packet, in order, each once,
+   at the destination its Device names - runs of consecutive packets for the same device included. *)
+Theorem C03_host_drain_delivers_queue :
+  forall c prox last q,
+    wf_conf c -> Forall (fun p => queueable p = true) q -> all_reg prox (c_own c) q ->
+    map untag_d (deliveries (hdrain c prox (mkS q None last))) =
+    flat_map (direct_h prox (c_own c)) (abandon (c_own c) last q).
+Proof. exact hdrain_delivers_queue. Qed.
+Print Assumptions C03_host_drain_delivers_queue.
+
+Theorem C03_host_routes_by_device :
+  forall c prox last q d,
+    wf_conf c -> Forall (fun p => queueable p = true) q -> all_reg prox (c_own c) q ->
+    In d (deliveries (hdrain c prox (mkS q None last))) -> d_sid d = p_dev (d_pkt d).
+Proof. exact hdrain_routes_by_device. Qed.
+Print Assumptions C03_host_routes_by_device.
+
 (* ---- non-vacuity ---------------------------------------------------------------------------------
    F = 256 KiB, Packets = 32, own device 1, device 2 registered.  Queue: a large own packet, a
    keep-alive, a tagged packet for device 2, a small packet with an empty device ID, a large own
@@ -317,4 +337,16 @@ Example C03_containers_nonvacuous :
 Proof.
   cbv zeta. split; [repeat (constructor; [vm_compute; reflexivity|]); constructor|].
   split; [vm_compute; discriminate|]. split; vm_compute; reflexivity.
+Qed.
+
+(* host 1 with proxied client 2, queue [S1; S2; H3; S4] (S = device 2): one multi-device batch; the
+   host's handlers see H3, the queue of client 2 gets S1, S2, S4 in order *)
+Example C03_host_nonvacuous :
+  let q := [ pk 8 1 2 0 [] 3 41; pk 9 2 2 0 [] 3 42; pk 10 3 1 0 [] 3 43; pk 11 4 2 0 [] 3 44 ] in
+  Forall (fun p => queueable p = true) q /\ all_reg ex_reg (c_own ex_conf) q /\
+  map untag_d (deliveries (hdrain ex_conf ex_reg (mkS q None 0))) =
+    [ dl 2 8 1 2 0 [] 3 41; dl 2 9 2 2 0 [] 3 42; dl 1 10 3 1 0 [] 3 43; dl 2 11 4 2 0 [] 3 44 ].
+Proof.
+  cbv zeta. split; [repeat (constructor; [vm_compute; reflexivity|]); constructor|].
+  split; [repeat (constructor; [vm_compute; auto|]); constructor|]. vm_compute. reflexivity.
 Qed.
